@@ -232,9 +232,9 @@ def make(pre, post, cls, L, optsd, oracle, ml=False, lmin=0, twin=False, node_of
                 if verdict is None:
                     raise D.UnexploredPath('LINK failed on %r (splice or content-dependent '
                                            'output); native run is fine' % (doc[-60:],))
-                return verdict
+                return D.Fail(verdict, {'h': h0})
             D.EXTRA['validated'] += 1
-            return True if verdict is None else verdict
+            return True if verdict is None else D.Fail(verdict, {'h': h0})
     return prop, (lambda w: concrete_check(w['h']))
 
 
@@ -313,7 +313,7 @@ def make2(c0, c1, c2, cls, L, optsd, oracle, lmins=(0, 0), wins=((0, 0), (0, 0))
             if not ok:
                 if verdict is None:
                     raise D.UnexploredPath('LINK failed on %r; native run is fine' % (doc[-60:],))
-                return verdict
+                return D.Fail(verdict, {'h1': w1, 'h2': w2})
             D.EXTRA['validated'] += 1
-            return True if verdict is None else verdict
+            return True if verdict is None else D.Fail(verdict, {'h1': w1, 'h2': w2})
     return prop, (lambda w: concrete_check(w['h1'], w['h2']) if ok_w(w) else None)
